@@ -39,6 +39,9 @@ class _Base(cx.CtxSuiteBase):
                 roes = (False, True) if thorough or i % 3 == 0 else ((i // 3) % 2 == 0,)
                 for roe in roes:
                     yield {"prog": ["ctx", p], "ka": ka, "roe": roe, "faults": []}
+                    if i % 5 == 0:
+                        # the same requests made through the handle API (`with ctx() as cx: cx.request(...)`)
+                        yield {"prog": ["ctx", cx.to_handle_api(p, rng)], "ka": ka, "roe": roe, "faults": []}
                     if not ka and i % 4 == 0:
                         yield {"prog": p, "ka": ka, "roe": roe, "faults": []}
 
